@@ -119,7 +119,8 @@ func genC14(seed uint64, r *Rng, idx, vecs int) *C14Case {
 		stem := strings.TrimSuffix(f.Rel, ".html")
 		return []string{quote(f.Rel), quote(f.Rel), fmt.Sprintf("inc%d", i), fmt.Sprintf(`stem%d | append: ".html"`, i),
 			quote("./" + f.Rel), quote("x/../" + f.Rel),
-			quote(stem) + ` | append: ".html"`, `'` + stem + `' | append: '.html'`, quote("zz"+f.Rel) + ` | remove: "zz"`}
+			quote(stem) + ` | append: ".html"`, `'` + stem + `' | append: '.html'`, quote("zz"+f.Rel) + ` | remove: "zz"`,
+			quote("zz"+f.Rel) + ` | replace: "zz", ""`, quote(f.Rel) + ` | slice: 0, 99`}
 	}
 	// file contents: file i may include files j>i if it lives in the root's directory
 	for i := n - 1; i >= 0; i-- {
